@@ -180,12 +180,12 @@ fn enumerate(rep: &mut Report, ctx: &Ctx, layer: &str, syms: &[&str], len: usize
     }
 }
 
-const HOSTILE_STRS: &[&str] = &[
+pub const HOSTILE_STRS: &[&str] = &[
     "", " ", "\"", "'", "i\"", "i'", "''", "\"\"", "i", "*", "**", "***", "i*", "?", "i?", "?(", "?[", "?*", "=", ">", ">=", "<", "<=", "=-", ">.", "=1.", "=.5", "=1e3", ">9223372036854775808", "<-9223372036854775809", "=١", "-", ".", "..", "-.", "1.2.3",
     "and", "and ", "or ", "not ", "not", "all(", "of(", "of(A", "of(A,", "of(A, ", "of(A, 1", "of(A, -1)", "of(A, 99999999999999999999)", "int(", "int()", "int(A", "str(A)", "flt(A) ==", "A and", "A and ", "and A", "A or or B", "((((", "))))", "(A", "A)", "()", "( )", "A == B", "1 == 1", "1", "1.0", "A and 1", "A or int(f)", "not 1", "not int(f)", "int(f) == int(g) == 1", "A\tand\tB", "A\u{a0}and B", "A and\u{3000}B", "é", "Aé", "andé", "and é", "é and A", "i̇", "\u{feff}A", "A\0B", "#", "#A", "A[", "A[0]", "A]", "a.b", "A,B", "all(A,B)", "all(all(A))", "not(A)", "not(f) and A", "string(f) == str(g)", "int(f)==1", "1<int(f)", "1 < 2", "A and (B", "A and B)", "(A) and (B)", "not not not A",
 ];
 
-fn random_string(rng: &mut Rng, pool: &[&str], max_syms: usize) -> String {
+pub fn random_string(rng: &mut Rng, pool: &[&str], max_syms: usize) -> String {
     let n = 1 + rng.below(max_syms);
     let mut s = String::new();
     for _ in 0..n {
@@ -200,7 +200,7 @@ fn random_string(rng: &mut Rng, pool: &[&str], max_syms: usize) -> String {
     s
 }
 
-fn random_yaml(rng: &mut Rng, depth: usize) -> Y {
+pub fn random_yaml(rng: &mut Rng, depth: usize) -> Y {
     let w_container = if depth >= 4 { 0 } else { 14 };
     match rng.weighted(&[6, 6, 10, 6, 30, w_container, w_container, 3]) {
         0 => Y::Null,
@@ -229,7 +229,7 @@ fn random_yaml(rng: &mut Rng, depth: usize) -> Y {
 }
 
 /// a rule-shaped value in which a few positions hold arbitrary YAML
-fn random_rule_value(rng: &mut Rng) -> Y {
+pub fn random_rule_value(rng: &mut Rng) -> Y {
     let mut det = serde_yaml::Mapping::new();
     let nid = rng.below(4);
     for i in 0..nid {
@@ -282,7 +282,7 @@ fn random_rule_value(rng: &mut Rng) -> Y {
 }
 
 /// replace one randomly chosen node of `v` (any depth) by arbitrary YAML
-fn mutate_value(rng: &mut Rng, v: &mut Y, depth: usize) {
+pub fn mutate_value(rng: &mut Rng, v: &mut Y, depth: usize) {
     let descend = match v {
         Y::Mapping(m) => !m.is_empty() && rng.chance(75),
         Y::Sequence(s) => !s.is_empty() && rng.chance(75),
@@ -313,7 +313,7 @@ fn mutate_value(rng: &mut Rng, v: &mut Y, depth: usize) {
     }
 }
 
-fn corpus() -> Vec<String> {
+pub fn corpus() -> Vec<String> {
     let mut out = vec![];
     if let Ok(rd) = std::fs::read_dir("/repo/tests/rules") {
         let mut paths: Vec<_> = rd.filter_map(|e| e.ok()).map(|e| e.path()).collect();
@@ -330,7 +330,7 @@ fn corpus() -> Vec<String> {
     out
 }
 
-fn mutate_text(rng: &mut Rng, t: &str) -> String {
+pub fn mutate_text(rng: &mut Rng, t: &str) -> String {
     let mut b: Vec<u8> = t.as_bytes().to_vec();
     for _ in 0..1 + rng.below(4) {
         if b.is_empty() {
